@@ -131,7 +131,7 @@ func ruleEvict(cx *Ctx) {
 func ruleC20Load(cx *Ctx) {
 	const rule = "C20.load"
 	cx.R.Rule(rule, 3, "wrapLoad records exactly one of load success / failure on every path after the dispatch (including the path that re-raises a loader panic); success iff the error is nil or ErrNotFound; loaders are dispatched only inside wrapLoad")
-	spec := opSpec{"wrapLoad", "cache", "wrapLoad", nil, "wrapLoad"}
+	spec := opSpec{"wrapLoad", "cache", "wrapLoad", nil, "wrapLoad", nil}
 	r := cx.runOp(rule, spec)
 	if r == nil {
 		return
